@@ -393,9 +393,10 @@ def geometry(ctx, rr):
     for cls in ('LRUTrie', 'LinkStore'):
         u = P.method(cls, 'nodes_iter')
         reads = [c for c in P.own(u, ast.Call) if isinstance(c.func, ast.Attribute) and c.func.attr == 'read' and c.args and isinstance(c.func.value, ast.Name)]
-        steps = [ast.unparse(c.args[0]) for c in reads]
-        ok = bool(reads) and all(ast.unparse(c.args[0]).replace(' ', '') in ('%s.block+self.storage.block_size' % c.func.value.id,
-                                                                              'self.storage.block_size+%s.block' % c.func.value.id) for c in reads)
+        from ..dataflow import rtext as _rt
+        steps = [_rt(P, u, c.args[0], keep=(c.func.value.id,)) for c in reads]
+        ok = bool(reads) and all(_rt(P, u, c.args[0], keep=(c.func.value.id,)) in ('%s.block+self.storage.block_size' % c.func.value.id,
+                                                          'self.storage.block_size+%s.block' % c.func.value.id) for c in reads)
         check(ctx.where(u), '%s.nodes_iter advances by exactly one block (%s)' % (cls, steps), ok, u, stmt='nodes_iter step')
         # ... and hands out every block it passes: block accounting (metrics, counters) is done by the consumers
         ys = [y for y in P.own(u, ast.Yield)]
@@ -569,36 +570,49 @@ def metrics(ctx, rr):
     """metrics count each kind of block by its own mark, independently of the other marks"""
     P = ctx.P
     u = P.method('LRUTrie', 'metrics')
-    loops = [f for f in P.own(u, ast.For)]
-    if len(loops) != 1:
-        raise AnalysisError('R-METRICS: LRUTrie.metrics no longer has one scan loop')
+    loops = [f for f in P.own(u, ast.For) if isinstance(f.iter, ast.Call) and any(t.name == 'nodes_iter' for t in P.targets(f.iter))]
+    if not loops:
+        raise AnalysisError('R-METRICS: LRUTrie.metrics no longer scans the blocks with nodes_iter')
     from .table_rules import tables
-    rows = tables(ctx, u, stmts=loops[0].body, iters=1, keep=lambda n, c: n in ('is_page', 'is_crawled', 'has_tail', 'is_tail'))
-    spec = {"'nb_nodes'": None, "'nb_pages'": ['.is_page()'], "'nb_crawled_pages'": ['.is_page()', '.is_crawled()'], "'nb_fragmented_nodes'": ['.has_tail()'],
-            "'nb_tail_nodes'": ['.is_tail()']}
+    spec_all = {"'nb_nodes'": None, "'nb_pages'": ['.is_page()'], "'nb_crawled_pages'": ['.is_page()', '.is_crawled()'], "'nb_fragmented_nodes'": ['.has_tail()'],
+                "'nb_tail_nodes'": ['.is_tail()']}
+    # a counter is checked in the scan loop that maintains it (the scan may be split into several passes)
+    tabs = []
+    for lp_ in loops:
+        rws = tables(ctx, u, stmts=lp_.body, iters=1, keep=lambda n, c: n in ('is_page', 'is_crawled', 'has_tail', 'is_tail'))
+        mine = {k for k in spec_all for r in rws for e in r.events if e.kind == 'store' and 'Add=' in e.text and k in (e.name or '')}
+        tabs.append((lp_, rws, mine))
+    missing = set(spec_all) - set().union(*[m for _, _, m in tabs])
+    dup = [k for k in spec_all if sum(1 for _, _, m in tabs if k in m) > 1]
     bad = []
-    for r in rows:
-        incs = {}
-        for e in r.events:
-            if e.kind == 'store' and 'Add=' in e.text and e.args == ['1']:
-                for k in spec:
-                    if k in (e.name or ''):
-                        incs[k] = incs.get(k, 0) + 1
-        for k, marks in spec.items():
-            if marks is None:
-                want = True
-            else:
-                vals = [[v for kk, v in r.val.items() if kk.endswith(m)] for m in marks]
-                if any(not v for v in vals):
-                    if any(v and v[-1] is False for v in vals):
-                        want = False
-                    else:
-                        bad.append((r, 'counter %s is decided without looking at %s' % (k, marks)))
-                        continue
-                else:
-                    want = all(v[-1] for v in vals)
-            if (incs.get(k, 0) == 1) != want or incs.get(k, 0) > 1:
-                bad.append((r, 'counter %s is %s although %s' % (k, 'incremented' if incs.get(k) else 'not incremented', marks)))
+    if missing or dup:
+        bad.append((tabs[0][1][0], 'counter(s) %s are %s' % (sorted(missing or dup), 'never incremented' if missing else 'maintained by more than one pass')))
+    rows = []
+    for lp_, rws, mine in tabs:
+      spec = {k: v for k, v in spec_all.items() if k in mine}
+      rows += rws
+      for r in rws:
+          incs = {}
+          for e in r.events:
+              if e.kind == 'store' and 'Add=' in e.text and e.args == ['1']:
+                  for k in spec:
+                      if k in (e.name or ''):
+                          incs[k] = incs.get(k, 0) + 1
+          for k, marks in spec.items():
+              if marks is None:
+                  want = True
+              else:
+                  vals = [[v for kk, v in r.val.items() if kk.endswith(m)] for m in marks]
+                  if any(not v for v in vals):
+                      if any(v and v[-1] is False for v in vals):
+                          want = False
+                      else:
+                          bad.append((r, 'counter %s is decided without looking at %s' % (k, marks)))
+                          continue
+                  else:
+                      want = all(v[-1] for v in vals)
+              if (incs.get(k, 0) == 1) != want or incs.get(k, 0) > 1:
+                  bad.append((r, 'counter %s is %s although %s' % (k, 'incremented' if incs.get(k) else 'not incremented', marks)))
     rr.ob(ctx.where(u, loops[0]), 'metrics: nodes, pages, crawled pages, fragmented nodes and tail blocks are each counted by their own mark (%d rows)' % len(rows), ok=not bad)
     for r, msg in bad[:3]:
         rr.fail(ctx.finding('R-METRICS', u, loops[0], 'LRUTrie.metrics: ' + msg, detail={'row': r.show()[:300]}))
